@@ -165,7 +165,9 @@ func calculate(doc billable) error {
 	t.TotalWithTax = t.Total.Add(t.Tax)
 	t.Payable = t.TotalWithTax
 	if t.Rounding != nil {
-		// BT-144 in EN16931
+		// BT-144 in EN16931, may have been provided externally so ensure
+		// it is presented with the currency's precision like the rest of totals.
+		*t.Rounding = t.Rounding.Rescale(zero.Exp())
 		t.Payable = t.Payable.Add(*t.Rounding)
 	}
 
